@@ -762,6 +762,31 @@ example : ∃ a, intersect exCoarse exFine [27, 28, 21, 0] = .ok a := by
     rw [e] at hneg
     omega
 
+/-- the hypotheses `(k, w) ∈ a.keys.zip a.weights` / `k ∈ a.keys` are met: a successful intersection lists at
+least one cell, with its weight -/
+example {a : AreaGrid ℚ} (h : intersect exCoarse exFine [27, 28, 21, 0] = .ok a) :
+    ∃ k w, (k, w) ∈ a.keys.zip a.weights := by
+  obtain ⟨hz, hl, hne⟩ := intersect_lists h
+  cases hk : a.keys with
+  | nil => exact absurd hk hne
+  | cons k t =>
+    cases hw : a.weights with
+    | nil => rw [hk, hw] at hl; simp at hl
+    | cons w t' => exact ⟨k, w, by simp⟩
+
+/-- a delineated catchment with a hole (cell 14 of the ring 7..21): `filled` selects a different list -/
+def exCa : Catchment ℚ := ⟨exFine, some [7, 8, 9, 13, 15, 19, 20, 21], some [7, 8, 9, 13, 14, 15, 19, 20, 21]⟩
+
+example : (if true then exCa.filled else exCa.area) = some [7, 8, 9, 13, 14, 15, 19, 20, 21] ∧
+    (if false then exCa.filled else exCa.area) = some [7, 8, 9, 13, 15, 19, 20, 21] := ⟨rfl, rfl⟩
+
+/-- shapes of the points argument after `np.atleast_2d`: `[x, y]` and an `(n, 2)` array pass, a scalar, a flat
+triple and an `(n, 3)` array do not; the grid guards of the Voronoi theorems hold for the example grid -/
+example : (PtsArg.flat [1, 2] : PtsArg ℚ).shape2d.1 = 2 ∧ (PtsArg.rows 2 [[1, 2], [3, 4]] : PtsArg ℚ).shape2d.1 = 2 ∧
+    (PtsArg.scalar 3 : PtsArg ℚ).shape2d.1 ≠ 2 ∧ (PtsArg.flat [1, 2, 3] : PtsArg ℚ).shape2d.1 ≠ 2 ∧
+    (PtsArg.rows 3 [[1, 2, 3]] : PtsArg ℚ).shape2d.1 ≠ 2 ∧ 0 < exFine.nrows ∧ 0 < exFine.ncols := by
+  refine ⟨rfl, rfl, by decide, by decide, by decide, by decide, by decide⟩
+
 /-- two equidistant points: the first one wins; a strictly closer later point wins -/
 example : nearest ([1, 1] : List ℚ) = 0 ∧ nearest ([2, 1, 1] : List ℚ) = 1 := by
   constructor <;> simp [nearest, nearestLoop]
